@@ -8,5 +8,6 @@ B == {<<3, 3>>, <<5, 1>>}
 Catalogue == {Sk(2, 0, {}), Sk(1, HLL, {})}
              \cup {Sk(k, 0, S) : k \in {1, 2, 3}, S \in {A}} \cup {Sk(2, 0, B)}
              \cup {Sk(k, HLL, S) : k \in {1, 2, 3}, S \in {A, B}}
+PC2(lg) == 2       \* the gadget is promoted at 2 coupons
 MCItems == {<<0, 1>>, <<7, 2>>}
 ====
